@@ -1,0 +1,30 @@
+//! Verification hooks (feature `verif-hooks`): read-only views of the four lists.
+use super::AdaptiveCache;
+use crate::lru::RawLRU;
+use crate::DefaultEvictCallback;
+
+impl<K, V, RH, REH, FH, FEH> AdaptiveCache<K, V, RH, REH, FH, FEH> {
+    /// The recent list (T1).
+    #[doc(hidden)]
+    pub fn verif_recent(&self) -> &RawLRU<K, V, DefaultEvictCallback, RH> {
+        &self.recent
+    }
+
+    /// The recent ghost list (B1).
+    #[doc(hidden)]
+    pub fn verif_recent_evict(&self) -> &RawLRU<K, V, DefaultEvictCallback, REH> {
+        &self.recent_evict
+    }
+
+    /// The frequent list (T2).
+    #[doc(hidden)]
+    pub fn verif_frequent(&self) -> &RawLRU<K, V, DefaultEvictCallback, FH> {
+        &self.frequent
+    }
+
+    /// The frequent ghost list (B2).
+    #[doc(hidden)]
+    pub fn verif_frequent_evict(&self) -> &RawLRU<K, V, DefaultEvictCallback, FEH> {
+        &self.frequent_evict
+    }
+}
